@@ -242,10 +242,19 @@ class ProbabilisticNode(Node):
             Removes the next states that have
             zero probability of reaching the final states.
         """
+        surviving_states = []
+        surviving_probability = 0
         for _next_state in self.next_states:
             next_state = state_list[_next_state[NEXT_STATE_IDX]]
-            if next_state.reach_probability == 0:
-                self.remove_path(_next_state)
+            if next_state.reach_probability != 0:
+                surviving_states.append(_next_state)
+                surviving_probability += _next_state[PROBABILITY]
+        if len(surviving_states) < len(self.next_states):
+            new_next_states = []
+            for _next_state in surviving_states:
+                new_state_probability = _next_state[PROBABILITY] / surviving_probability
+                new_next_states.append((new_state_probability, _next_state[NEXT_STATE_IDX]))
+            self.next_states = new_next_states
 
     def remove_path(self, state_to_remove):
         """
@@ -325,10 +334,9 @@ class PlayerOne(Node):
             Removes the next states that have zero probability of reaching
             the final states.
         """
-        for _next_state in self.next_states:
-            next_state = state_list[_next_state[NEXT_STATE_IDX]]
-            if next_state.reach_probability == 0:
-                self.remove_path(_next_state)
+        self.next_states = [
+            _next_state for _next_state in self.next_states
+            if state_list[_next_state[NEXT_STATE_IDX]].reach_probability != 0]
 
     def remove_path(self, state_to_remove):
         """ 
